@@ -75,3 +75,28 @@ Print Assumptions C20_refund_positive.
 Print Assumptions C20_handler.
 Print Assumptions C20.
 Print Assumptions C20_arithmetic_total.
+
+From HT Require Import Proofs.SolventProofs.
+Theorem C20_solvent_step : forall w o w', WF w -> Solvent w -> exec w o = Ok w' -> Solvent w'.
+Proof. exact exec_preserves_Solvent. Qed.
+Print Assumptions C20_solvent_step.
+
+Theorem C20_solvent_history : forall ops w, WF w -> Solvent w -> WF (run w ops) /\ Solvent (run w ops).
+Proof. exact run_preserves_Solvent. Qed.
+Print Assumptions C20_solvent_history.
+
+Theorem C20_invariants : forall w0 w p ps holder a lt,
+  WF w0 -> Solvent w0 -> reachable w0 w ->
+  w_pairs w p = Some ps -> w_tokens w (p_lp ps) = Some lt ->
+  holder <> p -> 1 <= a -> a <= t_bal lt holder ->
+  bal w (p_a0 ps) p * t_supply lt + 2 * t_supply lt * D <= bal w (p_a0 ps) p * a * D ->
+  bal w (p_a1 ps) p * t_supply lt + 2 * t_supply lt * D <= bal w (p_a1 ps) p * a * D ->
+  exists w', cw20_send w (p_lp ps) holder p a HWithdraw = Ok w'.
+Proof. exact withdraw_tx_succeeds_invariants. Qed.
+Print Assumptions C20_invariants.
+
+From HT Require Import World.Observe Proofs.InitProofs.
+Theorem C20_start_solvent : forall L ubal fbal tdec,
+  ubal * l_users L + fbal < W128 -> Solvent (init_world L ubal fbal tdec).
+Proof. exact init_world_Solvent. Qed.
+Print Assumptions C20_start_solvent.
